@@ -566,8 +566,20 @@ def run_msgpack(case):
   with quiet():
     data = serialization.msgpack_serialize(obj)
   require(type(data) is bytes, 'serialize_not_bytes', type(data).__name__)
-  got = serialization.msgpack_deserialize(data)
   notes = []
+  bad = case.get('bad_blob_first')
+  if bad and len(data) > 1:
+    # A damaged blob was handed to the deserialiser just before (a truncated
+    # download, a blob with trailing bytes): whatever it does with that one --
+    # raise, most likely -- the valid blob that follows is read on its own.
+    broken = {'cut': data[:max(1, len(data) * 2 // 3)], 'tail': data + data[:3],
+              'head': data[1:]}[bad]
+    try:
+      with quiet():
+        serialization.msgpack_deserialize(broken)
+    except Exception:  # pylint: disable=broad-except
+      notes.append('damaged_blob_rejected')
+  got = serialization.msgpack_deserialize(data)
   compare(expected(tree), describe(got), [], notes)
   if case.get('twice'):
     # the result is itself a supported tree: a second trip must be the identity
@@ -736,6 +748,29 @@ def run_sqlite(case):
       got_many = list(fd.get_clients(list(reversed(ids))))
       require([cid for cid, _ in got_many] == list(reversed(ids)),
               'sqlite:get_clients_order')
+      # What a reader hands out is the consumer's to edit (drop a feature, add
+      # one, scale in place); reading the client again -- here or through
+      # another reader -- gives what the builder wrote.
+      for cid in ids[:2]:
+        ex = fd.get_client(cid).raw_examples
+        for k in list(ex):
+          v = ex[k]
+          if isinstance(v, np.ndarray) and v.flags.writeable and v.size and v.dtype.kind in 'iuf':
+            v[...] = 1
+        if ex:
+          ex.pop(next(iter(ex)))
+        ex['__added_by_consumer__'] = np.zeros((by_id[cid]['n'],), np.int8)
+        compare(client_expected(by_id[cid]),
+                describe(dict(fd.get_client(cid).raw_examples)),
+                ['get_client_after_consumer_edit', repr(cid)], notes)
+      if ids:
+        fd2 = sqlite_federated_data.SQLiteFederatedData.new(path)
+        try:
+          compare(client_expected(by_id[ids[0]]),
+                  describe(dict(fd2.get_client(ids[0]).raw_examples)),
+                  ['second_reader_after_consumer_edit', repr(ids[0])], notes)
+        finally:
+          fd2._connection.close()  # pylint: disable=protected-access
       if ids:
         k = len(ids)
         shuffled = list(itertools.islice(
@@ -1060,7 +1095,9 @@ def good_tree(tier, leaf=None):
 
 def msgpack_cases(tier):
   return st.fixed_dictionaries({'tree': good_tree(tier),
-                                'twice': st.booleans()})
+                                'twice': st.booleans(),
+                                'bad_blob_first': st.sampled_from(
+                                    [None, None, None, 'cut', 'tail', 'head'])})
 
 
 # --- negative class
